@@ -41,7 +41,7 @@ func (r *Rng) Bytes(n int) []byte {
 
 // ---------------------------------------------------------------- payloads
 
-var payloadFamilies = []string{"empty", "one", "text", "alpha", "random", "nearuniform", "fib", "run", "periodic", "wedge", "alias", "mixed"}
+var payloadFamilies = []string{"empty", "one", "text", "alpha", "random", "nearuniform", "fib", "run", "periodic", "wedge", "alias", "mixed", "dominant", "gaps"}
 
 var words = []string{"the", "quick", "brown", "fox", "jumps", "over", "lazy", "dog", "opticks", "light", "ray", "prism", "colour", "refraction", "and", "of", "in", "to", "is", "that", "by", "which", "experiment", "\n", ", ", ". "}
 
@@ -142,6 +142,46 @@ func Payload(r *Rng, fam string, n int) []byte {
 			copy(more[d-len(seg):], seg)
 			b = append(b, more...)
 			b = append(b, seg...)
+		}
+		return b
+	case "dominant":
+		// one byte value with a count near a 16-bit boundary inside each 64 KiB, the rest spread over many
+		// values (symbol counts are truncated to 16 bits by the code-length generator), shuffled
+		b := make([]byte, n)
+		dom := byte(r.Intn(256))
+		share := r.Pick([]int{32767, 32768, 32769, 49152, 65535 - 256})
+		for i := range b {
+			if (i % 65536) < share {
+				b[i] = dom
+			} else {
+				b[i] = byte(1 + r.Intn(255))
+			}
+		}
+		for blk := 0; blk < n; blk += 65536 {
+			e := min(n, blk+65536)
+			for i := e - 1; i > blk; i-- {
+				j := blk + r.Intn(i-blk+1)
+				b[i], b[j] = b[j], b[i]
+			}
+		}
+		return b
+	case "gaps":
+		// alphabets whose unused gaps have the lengths at which the header's run-length coding changes
+		// (zero runs of 2/3/10/11/138/139, equal-length runs of 3/4/7/8)
+		var syms []int
+		x := r.Intn(3)
+		for x < 256 {
+			syms = append(syms, x)
+			x += 1 + r.Pick([]int{0, 0, 1, 2, 3, 9, 10, 11, 137, 138, 139, 140})
+		}
+		b := make([]byte, n)
+		for i := range b {
+			b[i] = byte(syms[r.Intn(len(syms))])
+		}
+		if r.Bool() { // uniform counts give runs of equal code lengths
+			for i := range b {
+				b[i] = byte(syms[i%len(syms)])
+			}
 		}
 		return b
 	case "mixed":
